@@ -147,3 +147,43 @@ func VerifBatch() {
 		verifReach("empty batch")
 	}
 }
+
+// VerifBatchCached: a batch on a gateway with the caching planner and the real executor; every result
+// equals what the operation receives alone from a gateway with the plain planner. The operations of a
+// batch plan one after the other or at the same time: whichever is planned first must not change what
+// the other one is answered.
+func VerifBatchCached() {
+	vK = 1
+	vMinLen = 1
+	pool := []string{
+		`{ me { phone } }`,
+		`{ me { id phone } }`,
+		`{ me { name phone } }`,
+		`{ me { id name phone } }`,
+		`query A { me { name } }`,
+		`{ __typename me { name } }`,
+	}
+	qs := []string{pool[verifChoice("op0", len(pool))], pool[verifChoice("op1", len(pool))]}
+	warm := verifChoice("warm", 2) == 1
+	alone := make([]interface{}, 2)
+	for i, q := range qs {
+		f := vNewFed(vReadmeWorld(1), nil, vSA, vSB, vSC)
+		_, out := f.vPost(q, nil, "")
+		alone[i] = out
+	}
+	f := vNewFed(vReadmeWorld(1), []GatewayOption{WithPlanner(planner.NewCachedPlanner(1000000000))}, vSA, vSB, vSC)
+	if warm {
+		// an earlier batch on the same long-lived gateway
+		b0, _ := json.Marshal([]interface{}{map[string]interface{}{"query": qs[1]}})
+		vPostRaw(f.gw, "application/json", b0)
+	}
+	body, _ := json.Marshal([]interface{}{map[string]interface{}{"query": qs[0]}, map[string]interface{}{"query": qs[1]}})
+	rec := vPostRaw(f.gw, "application/json", body)
+	var arr []interface{}
+	verifAssert(rec.code == 200 && json.Unmarshal(rec.body, &arr) == nil && len(arr) == 2, "a batch of two is answered with an array of two")
+	for i := 0; i < 2 && i < len(arr); i++ {
+		verifAssert(arr[i] != nil, "no result is missing")
+		vAssertSame("["+verifItoa(i)+"]", arr[i], alone[i])
+	}
+	verifReach("cached batch compared")
+}
